@@ -176,11 +176,11 @@ def judge_cases(prop, cases, rep):
         return
     replies = L.run_driver([c.line for c in cases])
     for c, r in zip(cases, replies):
-        rep.count(c)
         try:
             v = prop.interpret(wire.dec(r), c)
         except Exception as ex:  # malformed reply = harness/driver bug
             raise L.LeanFailure(f"cannot interpret driver reply {r[:300]!r} for {json.dumps(c.desc)[:300]}: {ex}")
+        rep.count(c)
         if v.model_spec is False:
             rep.selftest_fail.append((c, v))
         if v.impl_spec is False:
